@@ -82,6 +82,14 @@ func checkC02Srv(job *Job, res *Result) {
 					for _, o := range objs {
 						c.Do("DEL", key, "tmp"+o[0])
 					}
+					// ids that held geometries in the middle of everything and hold strings now
+					c.Do("SET", key, "wasgeo1", "POINT", "0", "0")
+					c.Do("SET", key, "wasgeo2", "BOUNDS", "-1", "-1", "1", "1")
+					c.Do("SET", key, "wasgeo3", "OBJECT", `{"type":"LineString","coordinates":[[-5,-5],[12,12]]}`)
+					c.Do("SET", key, "wasgeo1", "STRING", "a string now")
+					c.Do("SET", key, "wasgeo2", "STRING", "a string now")
+					c.Do("SET", key, "wasgeo3", "STRING", "a string now")
+					c.Do("DEL", key, "wasgeo3")
 				}
 				for _, o := range objs {
 					c.Do(append([]string{"SET", key, o[0]}, o[1:]...)...)
